@@ -40,16 +40,18 @@ type scnOpts struct {
 // genScn resolves a scenario through the explorer.
 func genScn(c *mc.Ctx, o *scnOpts) *scn.Scn {
 	s := &scn.Scn{NAspects: 1, JPOn: true, TopInLen: 32}
-	s.Fork = o.Forks[c.Choose(len(o.Forks))]
+	next := 0
+	s.Root = scn.GenFrame(c, &o.Gen, 1, &next)
+	s.Frames = next
+	// configuration choices come after the structure, so that a truncated exploration has seen every configuration
+	// of the structures it reached
 	if len(o.TopValues) > 1 {
 		s.TopValue = o.TopValues[c.Choose(len(o.TopValues))]
 	}
 	if len(o.TopInLens) > 1 {
 		s.TopInLen = o.TopInLens[c.Choose(len(o.TopInLens))]
 	}
-	next := 0
-	s.Root = scn.GenFrame(c, &o.Gen, 1, &next)
-	s.Frames = next
+	s.Fork = o.Forks[c.Choose(len(o.Forks))]
 	if len(o.JPModes) > 1 {
 		s.JPOn = o.JPModes[c.Choose(len(o.JPModes))]
 	}
